@@ -7,7 +7,9 @@
 (***************************************************************************)
 EXTENDS Integers, Sequences, FiniteSets, Json, IOUtils, TLC
 
-CONSTANTS Schedule, DtMin, DtMax, RecompMax
+CONSTANTS Schedule, DtMin, DtMax, RecompMax,
+          Eps   \* 0 for dyadic runs (exact arithmetic); > 0 for runs with arbitrary float parameters, whose values are
+                \* rounded to integers: equalities are then read as 'within Eps'
 
 Graph == JsonDeserialize(IOEnv.VERIF_GRAPH)
 P(n) == Graph.nodes[n]
@@ -17,8 +19,9 @@ Final == Schedule[N]
 VARIABLES node, lastAcc, hit, lastEv
 mvars == <<node, lastAcc, hit, lastEv>>
 
+Near(a, b) == a - b <= Eps /\ b - a <= Eps
 MInit == /\ node = 1 /\ lastAcc = P(1).time /\ lastEv = "init"
-         /\ hit = {k \in 1..N : Schedule[k] = P(1).time}
+         /\ hit = {k \in 1..N : Near(Schedule[k], P(1).time)}
 
 MNext ==
   /\ P(node).exact
@@ -27,7 +30,7 @@ MNext ==
         /\ node' = e.dst /\ lastEv' = e.ev
         /\ IF e.ev = "conv"
            THEN /\ lastAcc' = P(node).time
-                /\ hit' = hit \cup {k \in 1..N : Schedule[k] = P(node).time}
+                /\ hit' = hit \cup {k \in 1..N : Near(Schedule[k], P(node).time)}
            ELSE UNCHANGED <<lastAcc, hit>>
 
 MSpec == MInit /\ [][MNext]_mvars /\ WF_mvars(MNext)
@@ -37,15 +40,15 @@ Ex == Here.exact
 
 Mono == [][lastAcc' # lastAcc => lastAcc' > lastAcc]_mvars
 MonoStrict == [][lastEv' = "conv" => P(node).time > lastAcc]_mvars
-NoOvershoot == lastAcc <= Final
-NoSkippedSchedule == \A k \in 1..N : Schedule[k] <= lastAcc => k \in hit
-HitsAll == Here.phase = "done" => (hit = 1..N /\ lastAcc = Final)
+NoOvershoot == lastAcc <= Final + Eps
+NoSkippedSchedule == \A k \in 1..N : Schedule[k] + Eps < lastAcc => k \in hit
+HitsAll == Here.phase = "done" => (hit = 1..N /\ Near(lastAcc, Final))
 DtBounds == (Ex /\ Here.phase = "ready") =>
               /\ Here.dt > 0
-              /\ \/ (DtMin <= Here.dt /\ Here.dt <= DtMax)
-                 \/ \E k \in 1..N : Here.time + Here.dt = Schedule[k]
-FailureRewinds == (Ex /\ Here.phase = "ready") => Here.time = lastAcc
-RaiseOnlyWhenExhausted == (Ex /\ Here.phase = "raised") => (Here.recomp >= RecompMax \/ Here.dt = DtMin)
+              /\ \/ (DtMin - Eps <= Here.dt /\ Here.dt <= DtMax + Eps)
+                 \/ \E k \in 1..N : Near(Here.time + Here.dt, Schedule[k])
+FailureRewinds == (Ex /\ Here.phase = "ready") => Near(Here.time, lastAcc)
+RaiseOnlyWhenExhausted == (Ex /\ Here.phase = "raised") => (Here.recomp >= RecompMax \/ Near(Here.dt, DtMin))
 NoCrash == Here.phase # "crashed"
 \* (nodes left unexpanded by the explorer's node budget are marked cut)
 Termination == <>(Here.phase \in {"done", "raised", "crashed"} \/ ~Ex \/ Graph.cut[node])
